@@ -1,0 +1,325 @@
+//go:build verif
+
+package protein
+
+// Contracts for the verification machinery in /verif (govc). Comments only.
+// Protein substitution models (20 states). Floats: exact-real model (rounding ignored).
+
+//@ pure func c18b_in20(i int) bool = 0 <= i && i < 20
+
+// ---- constant queries and getters ----
+//@ func (*ProtModel).NState
+//@   props C18 C19
+//@   ensures result == 20
+//@   modifies nothing
+//@ func (*ProtModel).Analytical
+//@   props C18 C19
+//@   ensures result == false
+//@   modifies nothing
+//@ func (*ProtModel).Pij
+//@   props C18 C19
+//@   ensures result == 0.0 - 1.0
+//@   modifies nothing
+//@ func (*ProtModel).Pi
+//@   props C18 C19
+//@   requires model != nil && 0 <= i && i < len(model.pi)
+//@   ensures result == model.pi[i]
+//@   modifies nothing
+//@ func (*ProtModel).Eigens
+//@   props C18 C19
+//@   requires model != nil
+//@   ensures err == nil && sameslice(val, model.eval) && leftvectors == model.leigenvect && rightvectors == model.reigenvect
+//@   modifies nothing
+//@ func (*ProtModel).ReigenVects
+//@   props C18 C19
+//@   requires model != nil
+//@   ensures rightvectors == model.reigenvect
+//@   modifies nothing
+//@ func (*ProtModel).LeigenVects
+//@   props C18 C19
+//@   requires model != nil
+//@   ensures leftvectors == model.leigenvect
+//@   modifies nothing
+//@ func (*ProtModel).Eval
+//@   props C18 C19
+//@   requires model != nil
+//@   ensures sameslice(val, model.eval)
+//@   modifies nothing
+//@ func (*ProtModel).Alpha
+//@   props C18 C19
+//@   requires model != nil
+//@   ensures result == model.alpha
+//@   modifies nothing
+//@ func (*ProtModel).UseGamma
+//@   props C18 C19
+//@   requires model != nil
+//@   ensures result == model.usegamma
+//@   modifies nothing
+//@ func ModelStringToInt
+//@   props C18 C19
+//@   ensures (model == "dayoff" ==> result == MODEL_DAYHOFF) && (model == "jtt" ==> result == MODEL_JTT) && (model == "mtrev" ==> result == MODEL_MTREV) && (model == "lg" ==> result == MODEL_LG) && (model == "wag" ==> result == MODEL_WAG) && (model == "hivb" ==> result == MODEL_HIVB) && (model == "ab" ==> result == MODEL_AB)
+//@   ensures -1 <= result && result <= 6
+//@   ensures result == -1 <==> !(model == "dayoff" || model == "jtt" || model == "mtrev" || model == "lg" || model == "wag" || model == "hivb" || model == "ab")
+//@   modifies nothing
+
+// ---- the seven exchangeability tables (matrices.go) ----
+// an exchangeability matrix: 20 x 20 in its own row-major storage, symmetric, zero diagonal, no negative entry,
+// and not identically zero (entry (1,0) is positive in all seven tables). Stated over the element storage itself
+// (c18b_el(d,a,b) is mel(d,a,b) for a 20-column matrix) so that the facts survive writes to other float slices.
+//@ pure func c18b_el(d *mat.Dense, a int, b int) real = d.mat.Data[midx(20, a, b)]
+//@ pure func c18b_exch(d *mat.Dense) bool = msq(d, 20) && len(d.mat.Data) == 400 && (forall a, b :: c18b_in20(a) && c18b_in20(b) ==> c18b_el(d, a, b) == c18b_el(d, b, a)) && (forall a :: c18b_in20(a) ==> c18b_el(d, a, a) == 0.0) && (forall a, b :: c18b_in20(a) && c18b_in20(b) ==> c18b_el(d, a, b) >= 0.0) && c18b_el(d, 1, 0) > 0.0
+// a frequency vector: 20 positive entries
+//@ pure func c18b_freqs(pi []float64) bool = len(pi) == 20 && (forall k :: c18b_in20(k) ==> pi[k] > 0.0)
+
+// the sum of the 20 frequencies, written out (a recursive sum would be unfolded two levels only)
+//@ pure func c18b_sum20(pi []float64) real = pi[0] + pi[1] + pi[2] + pi[3] + pi[4] + pi[5] + pi[6] + pi[7] + pi[8] + pi[9] + pi[10] + pi[11] + pi[12] + pi[13] + pi[14] + pi[15] + pi[16] + pi[17] + pi[18] + pi[19]
+
+//@ func DayoffMats
+//@   props C18
+//@   ensures fresh(dmat) && c18b_exch(dmat)
+//@   ensures fresh(pi) && c18b_freqs(pi) && base(pi) != base(dmat.mat.Data)
+// the published frequencies are rounded: their exact sum (see NewProtModel for the consequence)
+//@   ensures c18b_sum20(pi) == 1.000001
+//@   modifies nothing
+//@   loop 1
+//@     invariant 0 <= i && i <= 20 && naa == 20 && len(m) == 400 && off(m) == 0 && len(pi) == 20 && fresh(m) && fresh(pi) && allocated(m) && allocated(pi) && base(m) != base(pi)
+//@     invariant forall a, b :: 0 <= b && b < a && a < 20 ==> m[midx(20, a, b)] >= 0.0
+//@     invariant m[midx(20, 1, 0)] > 0.0
+//@     invariant forall a :: c18b_in20(a) ==> m[midx(20, a, a)] == 0.0
+//@     invariant forall a, b :: 0 <= b && b < a && a < i ==> m[midx(20, b, a)] == m[midx(20, a, b)]
+//@     decreases 20 - i
+//@   loop 2
+//@     invariant 0 <= i && i < 20 && 0 <= j && j <= i && naa == 20 && len(m) == 400 && off(m) == 0 && len(pi) == 20 && fresh(m) && fresh(pi) && allocated(m) && allocated(pi) && base(m) != base(pi)
+//@     invariant forall a, b :: 0 <= b && b < a && a < 20 ==> m[midx(20, a, b)] >= 0.0
+//@     invariant m[midx(20, 1, 0)] > 0.0
+//@     invariant forall a :: c18b_in20(a) ==> m[midx(20, a, a)] == 0.0
+//@     invariant forall a, b :: 0 <= b && b < a && a < i ==> m[midx(20, b, a)] == m[midx(20, a, b)]
+//@     invariant forall b :: 0 <= b && b < j ==> m[midx(20, b, i)] == m[midx(20, i, b)]
+//@     decreases i - j
+
+//@ func JTTMats
+//@   props C18
+//@   ensures fresh(dmat) && c18b_exch(dmat)
+//@   ensures fresh(pi) && c18b_freqs(pi) && base(pi) != base(dmat.mat.Data)
+// the published frequencies are rounded: their exact sum (see NewProtModel for the consequence)
+//@   ensures c18b_sum20(pi) == 1.000001
+//@   modifies nothing
+//@   loop 1
+//@     invariant 0 <= i && i <= 20 && naa == 20 && len(m) == 400 && off(m) == 0 && len(pi) == 20 && fresh(m) && fresh(pi) && allocated(m) && allocated(pi) && base(m) != base(pi)
+//@     invariant forall a, b :: 0 <= b && b < a && a < 20 ==> m[midx(20, a, b)] >= 0.0
+//@     invariant m[midx(20, 1, 0)] > 0.0
+//@     invariant forall a :: c18b_in20(a) ==> m[midx(20, a, a)] == 0.0
+//@     invariant forall a, b :: 0 <= b && b < a && a < i ==> m[midx(20, b, a)] == m[midx(20, a, b)]
+//@     decreases 20 - i
+//@   loop 2
+//@     invariant 0 <= i && i < 20 && 0 <= j && j <= i && naa == 20 && len(m) == 400 && off(m) == 0 && len(pi) == 20 && fresh(m) && fresh(pi) && allocated(m) && allocated(pi) && base(m) != base(pi)
+//@     invariant forall a, b :: 0 <= b && b < a && a < 20 ==> m[midx(20, a, b)] >= 0.0
+//@     invariant m[midx(20, 1, 0)] > 0.0
+//@     invariant forall a :: c18b_in20(a) ==> m[midx(20, a, a)] == 0.0
+//@     invariant forall a, b :: 0 <= b && b < a && a < i ==> m[midx(20, b, a)] == m[midx(20, a, b)]
+//@     invariant forall b :: 0 <= b && b < j ==> m[midx(20, b, i)] == m[midx(20, i, b)]
+//@     decreases i - j
+
+//@ func MtREVMats
+//@   props C18
+//@   ensures fresh(dmat) && c18b_exch(dmat)
+//@   ensures fresh(pi) && c18b_freqs(pi) && base(pi) != base(dmat.mat.Data)
+// the published frequencies are rounded: their exact sum (see NewProtModel for the consequence)
+//@   ensures c18b_sum20(pi) == 1.0
+//@   modifies nothing
+//@   loop 1
+//@     invariant 0 <= i && i <= 20 && naa == 20 && len(m) == 400 && off(m) == 0 && len(pi) == 20 && fresh(m) && fresh(pi) && allocated(m) && allocated(pi) && base(m) != base(pi)
+//@     invariant forall a, b :: 0 <= b && b < a && a < 20 ==> m[midx(20, a, b)] >= 0.0
+//@     invariant m[midx(20, 1, 0)] > 0.0
+//@     invariant forall a :: c18b_in20(a) ==> m[midx(20, a, a)] == 0.0
+//@     invariant forall a, b :: 0 <= b && b < a && a < i ==> m[midx(20, b, a)] == m[midx(20, a, b)]
+//@     decreases 20 - i
+//@   loop 2
+//@     invariant 0 <= i && i < 20 && 0 <= j && j <= i && naa == 20 && len(m) == 400 && off(m) == 0 && len(pi) == 20 && fresh(m) && fresh(pi) && allocated(m) && allocated(pi) && base(m) != base(pi)
+//@     invariant forall a, b :: 0 <= b && b < a && a < 20 ==> m[midx(20, a, b)] >= 0.0
+//@     invariant m[midx(20, 1, 0)] > 0.0
+//@     invariant forall a :: c18b_in20(a) ==> m[midx(20, a, a)] == 0.0
+//@     invariant forall a, b :: 0 <= b && b < a && a < i ==> m[midx(20, b, a)] == m[midx(20, a, b)]
+//@     invariant forall b :: 0 <= b && b < j ==> m[midx(20, b, i)] == m[midx(20, i, b)]
+//@     decreases i - j
+
+//@ func LGMats
+//@   props C18
+//@   ensures fresh(dmat) && c18b_exch(dmat)
+//@   ensures fresh(pi) && c18b_freqs(pi) && base(pi) != base(dmat.mat.Data)
+// the published frequencies are rounded: their exact sum (see NewProtModel for the consequence)
+//@   ensures c18b_sum20(pi) == 1.000001
+//@   modifies nothing
+//@   loop 1
+//@     invariant 0 <= i && i <= 20 && naa == 20 && len(m) == 400 && off(m) == 0 && len(pi) == 20 && fresh(m) && fresh(pi) && allocated(m) && allocated(pi) && base(m) != base(pi)
+//@     invariant forall a, b :: 0 <= b && b < a && a < 20 ==> m[midx(20, a, b)] >= 0.0
+//@     invariant m[midx(20, 1, 0)] > 0.0
+//@     invariant forall a :: c18b_in20(a) ==> m[midx(20, a, a)] == 0.0
+//@     invariant forall a, b :: 0 <= b && b < a && a < i ==> m[midx(20, b, a)] == m[midx(20, a, b)]
+//@     decreases 20 - i
+//@   loop 2
+//@     invariant 0 <= i && i < 20 && 0 <= j && j <= i && naa == 20 && len(m) == 400 && off(m) == 0 && len(pi) == 20 && fresh(m) && fresh(pi) && allocated(m) && allocated(pi) && base(m) != base(pi)
+//@     invariant forall a, b :: 0 <= b && b < a && a < 20 ==> m[midx(20, a, b)] >= 0.0
+//@     invariant m[midx(20, 1, 0)] > 0.0
+//@     invariant forall a :: c18b_in20(a) ==> m[midx(20, a, a)] == 0.0
+//@     invariant forall a, b :: 0 <= b && b < a && a < i ==> m[midx(20, b, a)] == m[midx(20, a, b)]
+//@     invariant forall b :: 0 <= b && b < j ==> m[midx(20, b, i)] == m[midx(20, i, b)]
+//@     decreases i - j
+
+//@ func WAGMats
+//@   props C18
+//@   ensures fresh(dmat) && c18b_exch(dmat)
+//@   ensures fresh(pi) && c18b_freqs(pi) && base(pi) != base(dmat.mat.Data)
+// the published frequencies are rounded: their exact sum (see NewProtModel for the consequence)
+//@   ensures abs(c18b_sum20(pi) - 0.9999999) < 0.000000000001     // entries with more than 6 digits are taken at their float64 value
+//@   modifies nothing
+//@   loop 1
+//@     invariant 0 <= i && i <= 20 && naa == 20 && len(m) == 400 && off(m) == 0 && len(pi) == 20 && fresh(m) && fresh(pi) && allocated(m) && allocated(pi) && base(m) != base(pi)
+//@     invariant forall a, b :: 0 <= b && b < a && a < 20 ==> m[midx(20, a, b)] >= 0.0
+//@     invariant m[midx(20, 1, 0)] > 0.0
+//@     invariant forall a :: c18b_in20(a) ==> m[midx(20, a, a)] == 0.0
+//@     invariant forall a, b :: 0 <= b && b < a && a < i ==> m[midx(20, b, a)] == m[midx(20, a, b)]
+//@     decreases 20 - i
+//@   loop 2
+//@     invariant 0 <= i && i < 20 && 0 <= j && j <= i && naa == 20 && len(m) == 400 && off(m) == 0 && len(pi) == 20 && fresh(m) && fresh(pi) && allocated(m) && allocated(pi) && base(m) != base(pi)
+//@     invariant forall a, b :: 0 <= b && b < a && a < 20 ==> m[midx(20, a, b)] >= 0.0
+//@     invariant m[midx(20, 1, 0)] > 0.0
+//@     invariant forall a :: c18b_in20(a) ==> m[midx(20, a, a)] == 0.0
+//@     invariant forall a, b :: 0 <= b && b < a && a < i ==> m[midx(20, b, a)] == m[midx(20, a, b)]
+//@     invariant forall b :: 0 <= b && b < j ==> m[midx(20, b, i)] == m[midx(20, i, b)]
+//@     decreases i - j
+
+//@ func HIVBMats
+//@   props C18
+//@   ensures fresh(dmat) && c18b_exch(dmat)
+//@   ensures fresh(pi) && c18b_freqs(pi) && base(pi) != base(dmat.mat.Data)
+// the published frequencies are rounded: their exact sum (see NewProtModel for the consequence)
+//@   ensures abs(c18b_sum20(pi) - 0.999999999) < 0.000000000001     // entries with more than 6 digits are taken at their float64 value
+//@   modifies nothing
+//@   loop 1
+//@     invariant 0 <= i && i <= 20 && naa == 20 && len(m) == 400 && off(m) == 0 && len(pi) == 20 && fresh(m) && fresh(pi) && allocated(m) && allocated(pi) && base(m) != base(pi)
+//@     invariant forall a, b :: 0 <= b && b < a && a < 20 ==> m[midx(20, a, b)] >= 0.0
+//@     invariant m[midx(20, 1, 0)] > 0.0
+//@     invariant forall a :: c18b_in20(a) ==> m[midx(20, a, a)] == 0.0
+//@     invariant forall a, b :: 0 <= b && b < a && a < i ==> m[midx(20, b, a)] == m[midx(20, a, b)]
+//@     decreases 20 - i
+//@   loop 2
+//@     invariant 0 <= i && i < 20 && 0 <= j && j <= i && naa == 20 && len(m) == 400 && off(m) == 0 && len(pi) == 20 && fresh(m) && fresh(pi) && allocated(m) && allocated(pi) && base(m) != base(pi)
+//@     invariant forall a, b :: 0 <= b && b < a && a < 20 ==> m[midx(20, a, b)] >= 0.0
+//@     invariant m[midx(20, 1, 0)] > 0.0
+//@     invariant forall a :: c18b_in20(a) ==> m[midx(20, a, a)] == 0.0
+//@     invariant forall a, b :: 0 <= b && b < a && a < i ==> m[midx(20, b, a)] == m[midx(20, a, b)]
+//@     invariant forall b :: 0 <= b && b < j ==> m[midx(20, b, i)] == m[midx(20, i, b)]
+//@     decreases i - j
+
+//@ func ABMats
+//@   props C18
+//@   ensures fresh(dmat) && c18b_exch(dmat)
+//@   ensures fresh(pi) && c18b_freqs(pi) && base(pi) != base(dmat.mat.Data)
+// the published frequencies are rounded: their exact sum (see NewProtModel for the consequence)
+//@   ensures abs(c18b_sum20(pi) - 1.000000006) < 0.000000000001     // entries with more than 6 digits are taken at their float64 value
+//@   modifies nothing
+//@   loop 1
+//@     invariant 0 <= i && i <= 20 && naa == 20 && len(m) == 400 && off(m) == 0 && len(pi) == 20 && fresh(m) && fresh(pi) && allocated(m) && allocated(pi) && base(m) != base(pi)
+//@     invariant forall a, b :: 0 <= b && b < a && a < 20 ==> m[midx(20, a, b)] >= 0.0
+//@     invariant m[midx(20, 1, 0)] > 0.0
+//@     invariant forall a :: c18b_in20(a) ==> m[midx(20, a, a)] == 0.0
+//@     invariant forall a, b :: 0 <= b && b < a && a < i ==> m[midx(20, b, a)] == m[midx(20, a, b)]
+//@     decreases 20 - i
+//@   loop 2
+//@     invariant 0 <= i && i < 20 && 0 <= j && j <= i && naa == 20 && len(m) == 400 && off(m) == 0 && len(pi) == 20 && fresh(m) && fresh(pi) && allocated(m) && allocated(pi) && base(m) != base(pi)
+//@     invariant forall a, b :: 0 <= b && b < a && a < 20 ==> m[midx(20, a, b)] >= 0.0
+//@     invariant m[midx(20, 1, 0)] > 0.0
+//@     invariant forall a :: c18b_in20(a) ==> m[midx(20, a, a)] == 0.0
+//@     invariant forall a, b :: 0 <= b && b < a && a < i ==> m[midx(20, b, a)] == m[midx(20, a, b)]
+//@     invariant forall b :: 0 <= b && b < j ==> m[midx(20, b, i)] == m[midx(20, i, b)]
+//@     decreases i - j
+
+// ---- NewProtModel: a model of one of the seven tables, not yet initialised (mr == -1, no eigen system) ----
+//@ func NewProtModel
+//@   props C18
+//@   ensures (0 <= model && model <= 6) <==> result1 == nil
+//@   ensures result1 != nil ==> result0 == nil
+//@   ensures result1 == nil ==> result0 != nil && fresh(result0) && c18b_exch(result0.mat) && c18b_freqs(result0.pi) && base(result0.pi) != base(result0.mat.mat.Data) && fresh(result0.pi) && fresh(result0.mat)
+//@   ensures result1 == nil ==> result0.alpha == alpha && result0.usegamma == usegamma && result0.mr == 0.0 - 1.0 && result0.leigenvect == nil && result0.reigenvect == nil && result0.eigen == nil && len(result0.eval) == 0
+// the stationary frequencies of the model sum to 1 (GENUINE DEFECT on the unchanged code: six of the seven tables do not)
+//@   ensures result1 == nil ==> c18b_sum20(result0.pi) == 1.0
+//@   modifies nothing
+
+// ---- InitModel: the rate matrix Q(i,j) = S(i,j) pi(j) / (100 mr) for i != j, rows summing to 0, one expected substitution
+// ---- per unit time; S = the exchangeability matrix at entry, pi = the frequencies that Pi() returns afterwards.
+// ---- Sums over the 20 states are written out (recursive sums are unfolded two levels only and do not survive writes).
+// row sum, partial row sum (first n entries), partial and full sum of pi(k) d(k,k)
+//@ pure func c18b_rs(d *mat.Dense, i int) real = mel(d, i, 0) + mel(d, i, 1) + mel(d, i, 2) + mel(d, i, 3) + mel(d, i, 4) + mel(d, i, 5) + mel(d, i, 6) + mel(d, i, 7) + mel(d, i, 8) + mel(d, i, 9) + mel(d, i, 10) + mel(d, i, 11) + mel(d, i, 12) + mel(d, i, 13) + mel(d, i, 14) + mel(d, i, 15) + mel(d, i, 16) + mel(d, i, 17) + mel(d, i, 18) + mel(d, i, 19)
+//@ pure func c18b_rsdiv(d *mat.Dense, i int, r real) real = mel(d, i, 0) / r + mel(d, i, 1) / r + mel(d, i, 2) / r + mel(d, i, 3) / r + mel(d, i, 4) / r + mel(d, i, 5) / r + mel(d, i, 6) / r + mel(d, i, 7) / r + mel(d, i, 8) / r + mel(d, i, 9) / r + mel(d, i, 10) / r + mel(d, i, 11) / r + mel(d, i, 12) / r + mel(d, i, 13) / r + mel(d, i, 14) / r + mel(d, i, 15) / r + mel(d, i, 16) / r + mel(d, i, 17) / r + mel(d, i, 18) / r + mel(d, i, 19) / r
+//@ pure func c18b_rp(d *mat.Dense, i int, n int) real = (n > 0 ? mel(d, i, 0) : 0.0) + (n > 1 ? mel(d, i, 1) : 0.0) + (n > 2 ? mel(d, i, 2) : 0.0) + (n > 3 ? mel(d, i, 3) : 0.0) + (n > 4 ? mel(d, i, 4) : 0.0) + (n > 5 ? mel(d, i, 5) : 0.0) + (n > 6 ? mel(d, i, 6) : 0.0) + (n > 7 ? mel(d, i, 7) : 0.0) + (n > 8 ? mel(d, i, 8) : 0.0) + (n > 9 ? mel(d, i, 9) : 0.0) + (n > 10 ? mel(d, i, 10) : 0.0) + (n > 11 ? mel(d, i, 11) : 0.0) + (n > 12 ? mel(d, i, 12) : 0.0) + (n > 13 ? mel(d, i, 13) : 0.0) + (n > 14 ? mel(d, i, 14) : 0.0) + (n > 15 ? mel(d, i, 15) : 0.0) + (n > 16 ? mel(d, i, 16) : 0.0) + (n > 17 ? mel(d, i, 17) : 0.0) + (n > 18 ? mel(d, i, 18) : 0.0) + (n > 19 ? mel(d, i, 19) : 0.0)
+//@ pure func c18b_dp(d *mat.Dense, pi []float64, n int) real = (n > 0 ? pi[0] * mel(d, 0, 0) : 0.0) + (n > 1 ? pi[1] * mel(d, 1, 1) : 0.0) + (n > 2 ? pi[2] * mel(d, 2, 2) : 0.0) + (n > 3 ? pi[3] * mel(d, 3, 3) : 0.0) + (n > 4 ? pi[4] * mel(d, 4, 4) : 0.0) + (n > 5 ? pi[5] * mel(d, 5, 5) : 0.0) + (n > 6 ? pi[6] * mel(d, 6, 6) : 0.0) + (n > 7 ? pi[7] * mel(d, 7, 7) : 0.0) + (n > 8 ? pi[8] * mel(d, 8, 8) : 0.0) + (n > 9 ? pi[9] * mel(d, 9, 9) : 0.0) + (n > 10 ? pi[10] * mel(d, 10, 10) : 0.0) + (n > 11 ? pi[11] * mel(d, 11, 11) : 0.0) + (n > 12 ? pi[12] * mel(d, 12, 12) : 0.0) + (n > 13 ? pi[13] * mel(d, 13, 13) : 0.0) + (n > 14 ? pi[14] * mel(d, 14, 14) : 0.0) + (n > 15 ? pi[15] * mel(d, 15, 15) : 0.0) + (n > 16 ? pi[16] * mel(d, 16, 16) : 0.0) + (n > 17 ? pi[17] * mel(d, 17, 17) : 0.0) + (n > 18 ? pi[18] * mel(d, 18, 18) : 0.0) + (n > 19 ? pi[19] * mel(d, 19, 19) : 0.0)
+//@ pure func c18b_ds(d *mat.Dense, pi []float64) real = pi[0] * mel(d, 0, 0) + pi[1] * mel(d, 1, 1) + pi[2] * mel(d, 2, 2) + pi[3] * mel(d, 3, 3) + pi[4] * mel(d, 4, 4) + pi[5] * mel(d, 5, 5) + pi[6] * mel(d, 6, 6) + pi[7] * mel(d, 7, 7) + pi[8] * mel(d, 8, 8) + pi[9] * mel(d, 9, 9) + pi[10] * mel(d, 10, 10) + pi[11] * mel(d, 11, 11) + pi[12] * mel(d, 12, 12) + pi[13] * mel(d, 13, 13) + pi[14] * mel(d, 14, 14) + pi[15] * mel(d, 15, 15) + pi[16] * mel(d, 16, 16) + pi[17] * mel(d, 17, 17) + pi[18] * mel(d, 18, 18) + pi[19] * mel(d, 19, 19)
+
+// the three function literals handed to mat.Dense.Apply (used through these contracts at the Apply calls)
+//@ func (*ProtModel).InitModel$1
+//@   props C18
+//@   requires model != nil && 0 <= j && j < len(model.pi)
+//@   ensures result == v * model.pi[j] / 100.0
+//@   modifies nothing
+//@ func (*ProtModel).InitModel$2
+//@   props C18
+//@   requires model != nil && model.mr != 0.0
+//@   ensures result == v / model.mr
+//@   modifies nothing
+// the eigenvector copy: real parts of the complex eigenvector matrix (numeric content not modelled)
+//@ func (*ProtModel).InitModel$3
+//@   props C18
+//@   requires u != nil && 0 <= i && i < u.mat.Rows && 0 <= j && j < u.mat.Cols
+//@   modifies nothing
+
+//@ func (*ProtModel).InitModel
+//@   props C18
+//@   requires model != nil
+//@   requires model.mat != nil ==> c18b_exch(model.mat)
+//@   requires model.mat != nil && model.pi != nil ==> c18b_freqs(model.pi) && base(model.pi) != base(model.mat.mat.Data)
+//@   requires model.mat != nil && aafreqs != nil && len(aafreqs) == 20 ==> c18b_freqs(aafreqs) && base(aafreqs) != base(model.mat.mat.Data)
+//@   ensures old(model.mat == nil || model.pi == nil) || (aafreqs != nil && len(aafreqs) != 20) ==> result != nil
+//@   ensures model.mat == old(model.mat)
+// the frequencies of the model are the user's when given, the table's otherwise (same memory, content untouched)
+//@   ensures result == nil && aafreqs != nil ==> sameslice(model.pi, aafreqs)
+//@   ensures result == nil && aafreqs == nil ==> sameslice(model.pi, old(model.pi))
+//@   ensures result == nil ==> forall k :: c18b_in20(k) ==> model.pi[k] == old(aafreqs != nil ? aafreqs[k] : model.pi[k])
+//@   ensures result == nil ==> model.mr > 0.0
+//@   ensures result == nil ==> forall a, b :: c18b_in20(a) && c18b_in20(b) && a != b ==> mel(model.mat, a, b) == old(mel(model.mat, a, b)) * model.pi[b] / 100.0 / model.mr
+//@   ensures result == nil ==> forall a :: c18b_in20(a) ==> c18b_rs(model.mat, a) == 0.0
+//@   ensures result == nil ==> len(model.eval) == 20 && msq(model.leigenvect, 20) && msq(model.reigenvect, 20)
+//@   modifies model.pi, model.mr, model.eigen, model.leigenvect, model.reigenvect, model.eval, model.mat.mat.Data[*]
+// scaling a row by 1/mr scales its sum: an algebraic identity over the 20 entries of the row, proved (real-arithmetic
+// abstraction) on the unscaled matrix at the second Apply call, then used for the scaled matrix where it is handed to
+// the eigen solver
+//@   assert_at gonum.org/v1/gonum/mat.(*Dense).Apply 2 : forall a :: c18b_in20(a) ==> c18b_rsdiv(model.mat, a, model.mr) == c18b_rs(model.mat, a) / model.mr
+//@   assert_at gonum.org/v1/gonum/mat.(*Eigen).Factorize 1 : forall a :: c18b_in20(a) ==> c18b_rs(model.mat, a) == 0.0
+//@   loop 1
+//@     modifies model.mr, model.mat.mat.Data[*]
+//@     invariant 0 <= i && i <= 20 && ns == 20
+//@     invariant forall a, b :: c18b_in20(a) && c18b_in20(b) && a != b ==> mel(model.mat, a, b) == old(mel(model.mat, a, b)) * model.pi[b] / 100.0
+//@     invariant forall a, b :: c18b_in20(a) && c18b_in20(b) && a != b ==> mel(model.mat, a, b) >= 0.0
+//@     invariant mel(model.mat, 1, 0) > 0.0
+//@     invariant forall a :: i <= a && a < 20 ==> mel(model.mat, a, a) == 0.0
+//@     invariant forall a :: 0 <= a && a < i ==> c18b_rs(model.mat, a) == 0.0
+//@     invariant model.mr >= 0.0 && (i >= 2 ==> model.mr > 0.0)
+// NOT PROVED (nonlinear sum with a symbolic index): invariant model.mr == 0.0 - c18b_dp(model.mat, model.pi, i)
+//@     decreases 20 - i
+//@   loop 2
+//@     modifies nothing
+//@     invariant 0 <= i && i < 20 && 0 <= j && j <= 20 && ns == 20
+//@     invariant sum == c18b_rp(model.mat, i, j)
+//@     invariant sum >= 0.0 && (i == 1 && j >= 1 ==> sum > 0.0)
+//@     decreases 20 - j
+//@   loop 3
+//@     modifies model.eval[*]
+//@     invariant len(model.eval) == 20 && msq(model.leigenvect, 20) && msq(model.reigenvect, 20)
+
+// ---- detailed balance of an entry Q(a,b) = S(a,b) pi(b) / (100 mr) of the matrix described by the postcondition of
+// ---- InitModel, given symmetric exchangeabilities: proved as an algebraic lemma (on the code the quantified
+// ---- nonlinear statement is out of reach of the solvers, see the report)
+//@ lemma c18b_reversible(pa real, pb real, sab real, sba real, mr real)
+//@   props C18
+//@   requires mr > 0.0 && sab == sba
+//@   ensures pa * (sab * pb / 100.0 / mr) == pb * (sba * pa / 100.0 / mr)
